@@ -152,12 +152,12 @@ def build_module(sigs, scratch, with_methods=True, body=None, prefix="vfsig", he
     name = "%s_%d_%d" % (prefix, os.getpid(), _MODULE_COUNTER[0])
     lines = [header] if header else []
     for i, sig in enumerate(sigs):
-        lines.append("def f_%d(%s):\n    %s\n" % (i, sig_source(sig), body or "return None"))
+        lines.append("def f_%d(%s):\n    %s\n" % (i, sig_source(sig), body or "return dict(locals())"))
     if with_methods:
         lines.append("class K:\n    def __init__(self, tag=None):\n        self.vf_tag = tag\n")
         for i, sig in enumerate(sigs):
             src = sig_source(sig)
-            lines.append("    def m_%d(self%s):\n        %s\n" % (i, (", " + src) if src else "", body or "return None"))
+            lines.append("    def m_%d(self%s):\n        %s\n" % (i, (", " + src) if src else "", body or "return dict(locals())"))
     path = os.path.join(scratch, name + ".py")
     with open(path, "w") as f:
         f.write("\n".join(lines))
@@ -175,22 +175,31 @@ def build_module(sigs, scratch, with_methods=True, body=None, prefix="vfsig", he
 
 
 def expected_binding(func, args, kwargs):
-    """Python's own binding in filter_args' output vocabulary, or None when
-    Python rejects the call."""
-    sig = inspect.signature(func)
+    """Python's own binding in filter_args' output vocabulary, or None when Python rejects the call.
+
+    The oracle is the interpreter itself: generated functions return dict(locals()), so calling them yields the
+    binding (inspect.Signature.bind of Python 3.12 wrongly rejects a keyword named like a positional-only parameter
+    that legitimately goes to **kwargs, so bind is only the fallback for functions with another body)."""
     try:
-        ba = sig.bind(*args, **kwargs)
+        bound = func(*args, **kwargs)
     except TypeError:
         return None
-    ba.apply_defaults()
+    sig = inspect.signature(func)
+    if not isinstance(bound, dict):
+        try:
+            ba = sig.bind(*args, **kwargs)
+        except TypeError:
+            return None
+        ba.apply_defaults()
+        bound = dict(ba.arguments)
     exp = {}
     for name, prm in sig.parameters.items():
         if prm.kind is prm.VAR_POSITIONAL:
-            exp["*"] = list(ba.arguments[name])
+            exp["*"] = list(bound[name])
         elif prm.kind is prm.VAR_KEYWORD:
-            exp["**"] = dict(ba.arguments[name])
+            exp["**"] = dict(bound[name])
         else:
-            exp[name] = ba.arguments[name]
+            exp[name] = bound[name]
     if inspect.ismethod(func):
         self_name = next(iter(inspect.signature(func.__func__).parameters))
         exp = {self_name: func.__self__, **exp}
